@@ -25,13 +25,15 @@ RULE = ("Hypothesis: trees of VCALENDAR/VEVENT/VTODO/VJOURNAL/VFREEBUSY/VTIMEZON
         "multi-valued name; distinct by hash.")
 ASSUMPTIONS = ["texts contain no backslash and no literal %2C/%3A/%3B/%5C (RC-B region is decided in C05/C07/C08)",
                "RESOURCES is single-valued TEXT in this library's data model"]
-REQUIRED_CLASSES = ["kind:dates-date", "kind:periods", "kind:zoned", "kind:date", "kind:utc-trigger", "multi-valued", "setter", "nested", "extra-params", "list-valued-add"]
+REQUIRED_CLASSES = ["kind:dates-date", "kind:periods", "kind:zoned", "kind:date", "kind:utc-trigger", "multi-valued", "setter", "nested", "extra-params", "list-valued-add", "tzinfo-without-zone-id"]
 
 EXPECT_CLASS = {"text": "vText", "int": "vInt", "uri": "vUri", "caladdr": "vCalAddress", "datetime": "vDDDTypes", "date": "vDDDTypes",
                 "utc": "vDDDTypes", "td": "vDDDTypes", "period": "vPeriod", "recur": "vRecur", "geo": "vGeo", "offset": "vUTCOffset",
-                "cats": "vCategory", "dates": "vDDDLists", "dates-date": "vDDDLists", "periods": "vDDDLists", "naive": "vDDDTypes", "zoned": "vDDDTypes"}
+                "cats": "vCategory", "dates": "vDDDLists", "dates-date": "vDDDLists", "periods": "vDDDLists", "naive": "vDDDTypes", "zoned": "vDDDTypes", "fixed": "vDDDTypes", "pfixed": "vDDDTypes"}
 UTC_FORCED = {"DTSTAMP", "CREATED", "LAST-MODIFIED"}
 UTC = timezone.utc
+MATCH = [60, 120, -300, 330, 525, 840, -720, -570]      # minutes: offsets for which an IANA zone with that constant offset exists
+NOMATCH = [83, -83, 1, 90, 345]                         # no such zone in the library's table (RC-AX)
 
 
 def norm_dt(x):
@@ -63,6 +65,10 @@ def expected_value(name, spec, provider):
     if k == "utc":
         d = V.dec(spec, provider)
         return ("dt", d.replace(tzinfo=None), timedelta(0), "UTC")
+    if k in ("fixed", "pfixed"):
+        # a tzinfo without a zone id (datetime.timezone, pytz.FixedOffset): whatever zone the text names, the value read back is
+        # aware and denotes the same instant
+        return ("instant", V.dec(spec, provider).astimezone(UTC).replace(tzinfo=None))
     if k == "zoned":
         naive = datetime(*spec["v"])
         if name.upper() in UTC_FORCED:
@@ -122,7 +128,7 @@ def spec_kind(name, spec):
     k = spec["k"]
     if k == "date":
         return "DATE"
-    if k in ("naive", "utc", "zoned"):
+    if k in ("naive", "utc", "zoned", "fixed", "pfixed"):
         return "DATE-TIME"
     if k == "td":
         return "DURATION"
@@ -242,6 +248,15 @@ def judge(case):
                 except Exception as e:  # noqa: BLE001
                     raise
                 got = got_value(v)
+                if want[0] == "instant":
+                    d_ = getattr(v, "dt", None)
+                    if isinstance(d_, datetime) and d_.utcoffset() is not None and d_.astimezone(UTC).replace(tzinfo=None) == want[1]:
+                        got = want
+                    else:
+                        where = "@offset-without-iana-zone" if kind == "fixed" and (spec["off"] not in MATCH or spec["v"][0] < 1980) else ""
+                        fails.append(Failure("C02.values" + where, f"aware-value-without-zone-id-not-read-back-as-the-same-instant/{kind}{where}",
+                                             f"{nm}: got {d_!r} want instant {want[1]!r}Z raw-lines={[l for l in blk if l.upper().startswith(nm)][:2]!r}"[:500]))
+                        got = want
                 if got != want:
                     fails.append(Failure("C02.values", f"value-differs/{kind}", f"{nm}: got {got!r} want {want!r} raw-lines={[l for l in blk if l.upper().startswith(nm)][:2]!r}"[:600]))
                 # parameters: supplied ones intact, derived ones correct
@@ -326,6 +341,8 @@ def info(case):
                 special = True
             if len(p) > 2 and p[2]:
                 classes.append("extra-params")
+    if any(p[1]["k"] in ("fixed", "pfixed") for n in nodes for p in n["p"]):
+        classes.append("tzinfo-without-zone-id")
     if any(len(p) > 3 and p[3] and p[3].get("join") for n in nodes for p in n["p"]):
         classes.append("list-valued-add")
     if case.get("setters"):
@@ -340,7 +357,12 @@ def region_none(case):
     return False
 
 
-REGIONS = {}
+def region_idless_fixed_offset(case):
+    """RC-AX: some value is aware with a datetime.timezone tzinfo (localised per value by the clause suffix)"""
+    return any(p[1]["k"] == "fixed" for n in T.preorder(case["tree"]) for p in n["p"])
+
+
+REGIONS = {"tzinfo-without-zone-id": region_idless_fixed_offset}
 
 # ----------------------------------------------------------------------------- strategies
 
@@ -406,7 +428,24 @@ def cases(draw):
                          "offset": T.s_value("offset")}[kind])
             setters.append([i, attr, spec])
     tree = _with_list_adds(draw, tree)
+    if draw(st.integers(0, 3)) == 0:
+        tree = _with_idless_tzinfo(draw, tree)
     return {"provider": draw(st.sampled_from(["zoneinfo", "pytz"])), "tree": tree, "setters": setters}
+
+
+def _with_idless_tzinfo(draw, tree):
+    """one zoned or UTC DTSTART/DTEND/DUE/RECURRENCE-ID value becomes an aware value whose tzinfo carries no zone id"""
+    t = dict(tree)
+    props = [list(p) for p in tree["p"]]
+    idx = [i for i, p in enumerate(props) if p[0].upper() in ("DTSTART", "DTEND", "DUE", "RECURRENCE-ID") and p[1]["k"] in ("zoned", "utc", "naive")]
+    if idx:
+        i = draw(st.sampled_from(idx))
+        kind = draw(st.sampled_from(["fixed", "fixed", "pfixed"]))
+        off = draw(st.sampled_from(MATCH + (NOMATCH if kind == "fixed" else MATCH + [83, 1, 345])))
+        props[i] = [props[i][0], {"k": kind, "v": list(props[i][1]["v"][:6]), "off": off}]
+    t["p"] = props
+    t["s"] = [_with_idless_tzinfo(draw, x) if draw(st.booleans()) else x for x in tree["s"]]
+    return t
 
 
 _JOINABLE = {"text", "uri", "caladdr", "naive", "utc", "zoned", "date", "td", "int"}
